@@ -297,7 +297,12 @@ for o in objs:
             bad.append((label, repr(o), type(e).__name__)); continue
         if r is not o or names != (getattr(o, 'names', None), getattr(o, 'symbols', None), getattr(o, 'name', None)):
             bad.append((label, repr(o)))
-for m in (5, 5.5, Decimal('5.25'), 2 ** 53 + 1, -(2 ** 70), 10 ** 30, 1e21, -0.1):
+# floats that need 1..17 significant digits, the extremes of the double range, long ints and Decimals:
+# a transform of the rendered magnitude (rounding, a digit limit, a text detour) shows on some of them
+FLOATS = [float(repr(1 / 3)[:d + 2]) for d in range(1, 18)] + [0.1 + 0.2, 1 / 3, -200 / 3, 123456789.12345679,
+          1234567.891 * 1.1, 5e-324, 2.2250738585072014e-308, 1.7976931348623157e308, 9007199254740993.0, 1e22, 1e23, -1e-7]
+for m in [5, 5.5, Decimal('5.25'), 2 ** 53 + 1, -(2 ** 70), 10 ** 30, 1e21, -0.1, Decimal('1E-30'),
+          Decimal('0.1000000000000000055511151231257827'), Decimal('12345678901234567890.123456789')] + FLOATS:
     q = m * (Kilo * Meter / Second)
     for label, f in (('pickle', lambda x: pickle.loads(pickle.dumps(x))), ('deepcopy', copy.deepcopy),
                      ('json', lambda x: json.loads(json.dumps(x, cls=MeasuredJSONEncoder), cls=MeasuredJSONDecoder))):
